@@ -17,6 +17,13 @@ func properties() []*propDef {
 			Assumptions: []string{"VTA call graph over-approximates dynamic dispatch", "generated grammar package initialises its tables under sync.Once (trusted)"},
 		},
 		{
+			ID: "C06", Title: "Boolean operators follow FHIRPath three-valued logic for every operand form",
+			Rules: []ruleFn{ruleBOOL1, ruleBOOL2, ruleBOOL3},
+			Explanation: "Exhaustive abstract evaluation (conditional constant propagation with exact domain) of the branch-only Boolean machinery: BOOL1 ToSingletonBoolean/ToBool under every operand form and length class; BOOL3 the four table functions on {true,false,empty}^2, the whole BooleanExpression node for 4 operators x 5x5 operand forms (true, false, empty, non-Boolean singleton, multi-item) with the operand evaluations pinned, operand-error propagation, unknown operator, and not(); BOOL2 where/all/iif/EvaluateAsBool under every criterion form. Results are compared with the FHIRPath N1 truth tables frozen in the checker. Commutativity, De Morgan and `a implies b = a.not() or b` follow from the tables.",
+			NotDecided: []string{"operand forms whose value is only known at run time (FHIR boolean elements: only their error-freeness, not their value)", "that every producer of operands (literal, variable, function) hands the same collection to the operator (C17/C07 cover the producers)"},
+			Assumptions: []string{"FHIRPath N1 §6.5 truth tables as frozen in rules_c06.go"},
+		},
+		{
 			ID: "C16", Title: "Every built-in function is callable under its specification name and arity",
 			Rules: []ruleFn{ruleTAB1, ruleTAB2, ruleTAB3, ruleTAB4},
 			Explanation: "Exhaustive over both function tables as they stand in the working tree: TAB1 compares every key with the implementation bound to it (name agreement) and every exported implementation with its registration; TAB2 decides, for every entry and n=0..5, by conditional constant propagation under len(args)=n whether the implementation itself rejects the arity, and compares with the table bounds and the frozen FHIRPath N1 arities; TAB3 shows the placeholder errors on all paths; TAB4 shows VisitFunction constructs the call node iff the name was found and Min<=n<=Max.",
